@@ -48,13 +48,25 @@ impl Rng {
 thread_local! {
     static LAW_COUNT: Cell<u64> = const { Cell::new(0) };
     static FAIL_AT: Cell<Option<u64>> = const { Cell::new(None) };
+    static LAST_COUNT: Cell<u64> = const { Cell::new(0) };
 }
 
 /// Reset the law-call counter and arm (or disarm) the fault: the `k`-th (0-based) user law
 /// call made from now on fails.
 pub fn arm_fault(k: Option<u64>) {
+    let c = LAW_COUNT.with(|c| c.get());
+    if c > 0 {
+        LAST_COUNT.with(|l| l.set(c));
+    }
     LAW_COUNT.with(|c| c.set(0));
     FAIL_AT.with(|f| f.set(k));
+}
+pub fn reset_last() {
+    LAST_COUNT.with(|l| l.set(0));
+}
+/// law calls counted by the most recent armed section that made any
+pub fn last_law_calls() -> u64 {
+    LAST_COUNT.with(|c| c.get())
 }
 pub fn law_calls() -> u64 {
     LAW_COUNT.with(|c| c.get())
